@@ -2105,6 +2105,13 @@ class Mailbox:
             for msg_key in to_delete:
                 self.sequences[seq].discard(msg_key)
         self.num_recent = len(self.sequences["Recent"])
+
+        # The folder's .mh_sequences must not keep mentioning the removed
+        # messages: MH numbers are reused, so a later delivery that gets a
+        # freed number would otherwise inherit the removed message's flags.
+        #
+        async with self.mh_sequences_lock:
+            self.set_sequences_in_folder(self.sequences)
         await self.commit_to_db()
         self.optional_resync = False
 
